@@ -1,7 +1,65 @@
-import SshAudit.Driver.WireOps
+import SshAudit.Driver.PolicyOps
+import SshAudit.Model.PolicyFile
 namespace SshAudit.Driver
+open SshAudit SshAudit.Pol SshAudit.PolicyFile
 
-/-- stub: filled in by the builder of this extension -/
-def policyFileOp (_op : String) (_args : List String) : Option J := none
+/-- `{"err": kind, "detail": [texts of the message]}` -/
+def pfJerr : PFErr → J
+  | .noEq l => .obj [("err", .str "noeq".toList), ("detail", J.ofStrs [l])]
+  | .badField l => .obj [("err", .str "badfield".toList), ("detail", J.ofStrs [l])]
+  | .unquoted k v => .obj [("err", .str "unquoted".toList), ("detail", J.ofStrs [k, v])]
+  | .badInt v => .obj [("err", .str "badint".toList), ("detail", J.ofStrs [v])]
+  | .badJson => .obj [("err", .str "json".toList), ("detail", .arr [])]
+  | .typeError => .obj [("err", .str "type".toList), ("detail", .arr [])]
+  | .unbound => .obj [("err", .str "unbound".toList), ("detail", .arr [])]
+  | .noName => .obj [("err", .str "noname".toList), ("detail", .arr [])]
+  | .noVersion => .obj [("err", .str "noversion".toList), ("detail", .arr [])]
+  | .outOfModel => .obj [("err", .str "out-of-model".toList), ("detail", .arr [])]
+
+def pfJrec (r : Rec) : J := .obj [
+  ("name", .str r.name), ("version", .str r.version), ("server", .bool r.serverPolicy), ("warnings", .nat r.warnings),
+  ("policy", jpol r.pol)]
+
+instance pfInhabitedJ : Inhabited J := ⟨.null⟩
+
+/-- a JSON value as the harness canonicalises it: dicts as lists of pairs in dict order, floats as the text "float" -/
+partial def pfJjv : Json.JV → J
+  | .null => .null
+  | .bool b => .bool b
+  | .int i => .num i
+  | .float => .str "float".toList
+  | .str v => .arr [.str "s".toList, .str v]
+  | .arr xs => .arr (.str "a".toList :: xs.map pfJjv)
+  | .obj kvs => .arr (.str "o".toList :: (Json.dictOf kvs).map (fun kv => .arr [.str kv.1, pfJjv kv.2]))
+
+def policyFileOp (op : String) (args : List String) : Option J :=
+  match op, args with
+  | "policyfile.parse", [t] => do
+    let t ← decStr t
+    pure (match parse t with
+      | .ok r => jok (pfJrec r)
+      | .error e => pfJerr e)
+  | "policyfile.create", src :: today :: ca :: peerToks => do
+    let src ← decStr src; let today ← decStr today; let ca ← decBool ca
+    let peer ← decPeer peerToks
+    pure (jok (.str (create src today peer ca)))
+  | "policyfile.loads", [t] => do
+    let t ← decStr t
+    pure (match Json.loads t with
+      | .ok v => jok (pfJjv v)
+      | .error .invalid => .obj [("err", .str "json".toList)]
+      | .error .outOfModel => .obj [("err", .str "out-of-model".toList)])
+  | "policyfile.dumpstr", [t] => do
+    let t ← decStr t
+    pure (jok (.str (Json.dumpStr t)))
+  | "policyfile.pyint", [t] => do
+    let t ← decStr t
+    pure (match pyInt t with
+      | some i => jok (.num i)
+      | none => .obj [("err", .str "badint".toList)])
+  | "policyfile.unquote", [t] => do
+    let t ← decStr t
+    pure (jok (.str (unquote t)))
+  | _, _ => none
 
 end SshAudit.Driver
